@@ -341,3 +341,80 @@ Proof.
       rewrite rp_lower_byte_dot in H. apply rp_beqb_eq in H. subst; reflexivity.
     + inversion E as [[E1 E2]]. destruct (IH _ E2) as [t' ->]. exists (x :: t'). reflexivity.
 Qed.
+
+(* ---------- the table against the specification's plain route set, as state machines ---------- *)
+Section Sim.
+  Context {P : Type}.
+  Notation route := (route P).
+
+  Definition rc_sim (s : rstate P) (routes : list route) : Prop :=
+    rp_wf s /\ forall r, rp_in r s <-> In r routes.
+
+  Lemma rc_triple_is_iff d l u (r : route) :
+    rs_triple_is d l u r = true <-> (rt_dom r = d /\ rt_loc r = l /\ rt_user r = u).
+  Proof.
+    unfold rs_triple_is. rewrite !andb_true_iff, !rp_eqb_eq. tauto.
+  Qed.
+
+  Lemma rc_sim_add_none s routes d l u pay : rc_sim s routes ->
+    (rt_add s d l u pay = None <-> rs_add routes d l u pay = None).
+  Proof.
+    intros [Hwf Hs]. rewrite (rp_add_none s d l u pay Hwf). unfold rs_add.
+    destruct (existsb (rs_triple_is (lower d) l u) routes) eqn:E.
+    - split; [reflexivity|]. intros _. apply existsb_exists in E as [r [Hin Ht]].
+      apply rc_triple_is_iff in Ht. exists r. split; [apply Hs; exact Hin|exact Ht].
+    - split; [|discriminate]. intros [r [Hin Ht]]. exfalso.
+      assert (existsb (rs_triple_is (lower d) l u) routes = true); [|congruence].
+      apply existsb_exists. exists r. split; [apply Hs; exact Hin|apply rc_triple_is_iff; exact Ht].
+  Qed.
+
+  Lemma rc_sim_step s routes o : rc_sim s routes -> rc_sim (rt_step s o) (rs_step routes o).
+  Proof.
+    intros Hsim. pose proof Hsim as [Hwf Hs]. destruct o as [d l u pay|d l u]; simpl.
+    - pose proof (rc_sim_add_none s routes d l u pay Hsim) as Hn.
+      destruct (rt_add s d l u pay) as [s'|] eqn:A; destruct (rs_add routes d l u pay) as [routes'|] eqn:B.
+      + destruct (rp_add_ok _ _ _ _ _ _ Hwf A) as [Hwf' Hin']. split; [exact Hwf'|].
+        unfold rs_add in B. destruct (existsb _ routes); [discriminate|]. inversion B; subst routes'.
+        intro r. rewrite Hin'. simpl. rewrite Hs. intuition.
+      + exfalso. assert (Some s' = None) by (apply Hn; reflexivity). discriminate.
+      + exfalso. assert (Some routes' = None) by (apply Hn; reflexivity). discriminate.
+      + exact Hsim.
+    - destruct (rp_del_ok s d l u Hwf) as [Hwf' Hin']. split; [exact Hwf'|].
+      intro r. rewrite Hin'. unfold rs_del. rewrite filter_In, Hs, negb_true_iff.
+      rewrite <- (rc_triple_is_iff (lower d) l u r).
+      destruct (rs_triple_is (lower d) l u r); intuition congruence.
+  Qed.
+
+  Lemma rc_sim_fold hist : forall s routes, rc_sim s routes ->
+    rc_sim (fold_left rt_step hist s) (fold_left rs_step hist routes).
+  Proof. induction hist as [|o h IH]; simpl; intros; [assumption|]. apply IH, rc_sim_step; assumption. Qed.
+
+  Lemma rc_sim_run (hist : list (rt_op P)) : rc_sim (rt_run hist) (rs_run hist).
+  Proof.
+    apply rc_sim_fold. split; [apply rp_wf_empty|]. intro r. split; [|intros []].
+    intros [ut [vrs [L _]]]. discriminate.
+  Qed.
+
+  Lemma rc_sim_get_vhost s routes h p u : rc_sim s routes ->
+    rt_get_vhost s h p u = rs_best_match routes h p u.
+  Proof.
+    intros [Hwf Hs]. destruct (rt_get_vhost s h p u) as [r|] eqn:G.
+    - symmetry. apply rq_best_match_some. destruct (rq_get_vhost_best s h p u r Hwf G) as [A [B C]].
+      split; [apply Hs; exact A|]. split; [exact B|]. intros r' Hr'. apply C. apply Hs; exact Hr'.
+    - symmetry. apply rq_best_match_none. intros r' Hr'. apply (rq_get_vhost_none s h p u Hwf G). apply Hs; exact Hr'.
+  Qed.
+
+  Theorem rc_table_refines_route_set (hist : list (rt_op P)) :
+    (forall r, In r (rt_abs (rt_run hist)) <-> In r (rs_run hist)) /\
+    (forall d l u pay, (rt_add (rt_run hist) d l u pay = None <-> rs_add (rs_run hist) d l u pay = None)) /\
+    (forall host path user, rt_get_vhost (rt_run hist) host path user = rs_best_match (rs_run hist) host path user).
+  Proof.
+    pose proof (rc_sim_run hist) as Hsim. pose proof Hsim as [Hwf Hs]. split; [|split].
+    - intro r. rewrite (rp_in_abs _ r Hwf). apply Hs.
+    - intros. apply rc_sim_add_none; exact Hsim.
+    - intros. apply rc_sim_get_vhost; exact Hsim.
+  Qed.
+
+  (* the monitor of Corr/C06.v accepts every trace the model produces: observations computed by the
+     model from any op list pass the specification-only check *)
+End Sim.
